@@ -12,7 +12,7 @@
    multiplication): rn with any positive weighting, uniform_discr, product
    spaces are instances (Instances.v, Lists.v). *)
 From Coq Require Import QArith Qreals Reals List Bool.
-From Verif Require Import Base.Num Base.Vec C09.Model C09.IPS C09.Proofs C09.Instances C09.Lists C09.Pointwise C09.Matrix C09.Product C09.Moreau C09.KL C09.Radial C09.NumGrad C09.Transfer Gen.FunctionalLip C09.GenTie.
+From Verif Require Import Base.Num Base.Vec C09.Model C09.IPS C09.Proofs C09.Instances C09.Lists C09.Pointwise C09.Matrix C09.Product C09.Moreau C09.KL C09.Radial C09.NumGrad C09.Transfer Gen.FunctionalLip C09.GenTie C09.PwProd.
 Local Open Scope R_scope.
 
 (* T1 (gradient rules, all trees).  For every expression tree, of any depth and
@@ -104,6 +104,10 @@ Theorem composed_operator_sound : forall (S1 S2 S3 : RSpace),
   forall (A : Oper S2 S3) (B : Oper S1 S2) x,
   op_sound B x -> op_sound A (op_app B x) -> op_sound (op_comp A B) x.
 Proof. exact op_comp_sound. Qed.
+(* OperatorPointwiseProduct(A, B): product rule for operators, with the adjoint the model uses *)
+Theorem pointwise_product_operator_sound : forall (S1 S2 : RSpace), SpaceLaws S1 -> SpaceLaws S2 ->
+  forall (A B : Oper S1 S2) x, op_sound A x -> op_sound B x -> op_sound (op_pwprod A B) x.
+Proof. exact op_pwprod_sound. Qed.
 (* MatrixOperator rn(n1) -> rn(n2) (unit weights): linear, bounded (Frobenius),
    and the plain transpose used by the code is its adjoint; the operator on the
    sigma carrier is Model.op_matrix applied to the underlying lists. *)
